@@ -16,7 +16,7 @@ Spec == Init /\ [][Next]_h
 
 (* listing an artifact yields exactly the signature manifests pushed for it - none of another artifact, none of another type *)
 Inv_C19 == \A s \in Subjects :
-  /\ (~Poisoned(h, s) => Range(ListOf(h, s)) = {i \in 1..Len(h) : h[i].s = s /\ h[i].kind \in SigKinds \cup (HostileKinds \ Oversized)})
+  /\ (~Poisoned(h, s) => Range(ListOf(h, s)) = {i \in 1..Len(h) : h[i].s = s /\ h[i].kind \in SigKinds \cup GoneKinds \cup (HostileKinds \ Oversized)})
   /\ \A i \in Range(ListOf(h, s)) : i # -1 => h[i].s = s /\ h[i].kind \notin ForeignKinds
 (* pushes for one artifact never change what another artifact lists *)
 Prop_Frame == [][\A s \in Subjects : (h'[Len(h')].s # s) => ListOf(h', s) = ListOf(h, s)]_h
